@@ -44,9 +44,9 @@ def has_skip(item):
 # property -> how correspondence A is restricted and which theorems are audited
 PROPS = {
     'C01': dict(traits=None, part='header', theorems=['DW.C01_applies_iff', 'DW.C01_unlisted_unconstrained', 'DW.C01_no_leak', 'DW.C01_merge_sound', 'DW.dedupGo_generics'],
-                enums=['bounds'], design='7/C01'),
+                enums=['bounds'], configs_quick=['default', 'safe', 'zod'], design='7/C01'),
     'C02': dict(traits=None, part='all', count=True, theorems=['DW.C02_impl_list', 'DW.C02_delegation_same_bounds', 'DW.implPreds_shortcut', 'DW.C18_effect', 'DW.C09_fieldwise'],
-                enums=None, design='7/C02'),
+                enums=None, configs_quick=['default', 'safe', 'zod'], design='7/C02'),
     'C03': dict(traits=['PartialEq'], theorems=['DW.C03_eq'], enums=['incomparable', 'skip'], design='7/C03'),
     'C04': dict(traits=['PartialOrd', 'Ord'], theorems=['DW.buildDiscriminants_spec', 'DW.C04_ord_refines', 'DW.C04_delegation', 'DW.C04_agree'],
                 enums=['discriminants', 'incomparable', 'skip'], configs_quick=['default', 'safe', 'nightly'], design='7/C04'),
@@ -58,7 +58,7 @@ PROPS = {
                                                                          'DW.C06_invisible_debug', 'DW.C06_invisible_zeroize', 'DW.C06_visible_eq',
                                                                          'DW.relevantIdx_unskippable', 'DW.C06_unskippable_clone',
                                                                          'DW.C06_unskippable_default', 'DW.C06_no_demand_eq'],
-                enums=['skip', 'debug', 'zeroize'], design='7/C06'),
+                enums=['skip', 'debug', 'zeroize'], configs_quick=['default', 'safe', 'zod'], design='7/C06'),
     'C07': dict(traits=['PartialEq', 'PartialOrd'], theorems=['DW.C07_marked_eq', 'DW.C07_marked_pcmp', 'DW.C07_eq_eval', 'DW.C07_pcmp_eval',
                                                                'DW.C07_unaffected_eq', 'DW.C07_unaffected_pcmp'],
                 enums=['incomparable'], configs_quick=['default', 'safe', 'nightly'], design='7/C07'),
@@ -114,8 +114,8 @@ def proof_obligations(prop, thorough):
     if rc != 0:
         res['problems'].append('lake build failed: ' + out[-1500:])
         return res
-    os.makedirs(os.path.join(VERIF, 'work'), exist_ok=True)
-    audit = os.path.join(VERIF, 'work', 'Audit_%s.lean' % prop)
+    os.makedirs(runner.WORK, exist_ok=True)
+    audit = os.path.join(runner.WORK, 'Audit_%s.lean' % prop)
     with open(audit, 'w') as f:
         f.write('import %s\n' % module + ''.join('#print axioms %s\n' % t for t in spec['theorems']))
     rc, out = sh(['lake', 'env', 'lean', audit], cwd=LEAN)
